@@ -157,7 +157,9 @@ def r_cks_add(model, rep):
         rep.ob("R-CKS-ADD", "Checksums.add:stored-pair", okv, site=cx.site(st[0].lineno),
                msg="" if okv else "the stored pair must be (checksum_type, given value or compute_checksum(join(root_dir, normalised path), checksum_type)): %s" % T.show(v)[:200])
         calls = [ev for ev in cx.events if ev.kind == "call" and ev.value[1] == ("global", "compute_checksum")]
-        okc = len(calls) == 1 and calls[0].guards and calls[0].guards[-1] == (("unary", "not", cval), True)
+        # ... exactly when no value was supplied (further refusals on that path -- a missing root_dir -- are early exits, not
+        # conditions of the computation)
+        okc = len(calls) == 1 and facts.guard_atoms(facts.own_guards(cx, calls[0])) == {facts.canon_guard((cval, False))}
         rep.ob("R-CKS-ADD", "Checksums.add:computed-only-when-missing", okc, site=cx.site(f.node),
                msg="" if okc else "the digest must be computed exactly when no value was supplied")
     # the absolute-path refusal tests the *argument* before normalisation and dominates the store
@@ -285,7 +287,11 @@ def r_img_addcks(model, rep):
     rs = [ev for ev in cx.events if ev.kind == "raise" and ev.value[0] == "call" and ev.value[1] == ("global", "ValueError")]
     cur = ("sub", cks, t)
     conflict = {facts.canon_guard((present, True)), facts.canon_guard((v, True)), facts.canon_guard((("cmp", ("!=",), (v, cur)), True))}
-    ok = len(rs) == 1 and facts.guard_atoms([(nc(g[0]), g[1]) for g in rs[0].guards]) == conflict
+    # the conflict refusal: among the ValueErrors, the one conditioned on the recorded value (other refusals -- a blank type ... --
+    # may precede it; their negations are not conditions of this one)
+    rs = [ev for ev in rs if any(T.contains(g[0], lambda x: x == cur) for g in ev.guards)]
+    ok = len(rs) == 1 and conflict <= facts.guard_atoms([(nc(g[0]), g[1]) for g in rs[0].guards]) \
+        and facts.guard_atoms([(nc(g[0]), g[1]) for g in facts.own_guards(cx, rs[0])]) <= conflict
     rep.ob("R-IMG-ADDCKS", "Image.add_checksum:conflict-raises", ok, site=cx.site(f.node),
            msg="" if ok else "a different non-empty value for a recorded checksum type must raise ValueError")
     rets = [ev for ev in cx.events if ev.kind == "return"]
